@@ -103,6 +103,50 @@ where
       let (kvs, rest) ← decodeIMap fuel k rest
       pure ((Int64.ofInt ki, v) :: kvs, rest)
 
+/-- canonical rendering of a result value (kind + content) -/
+def showVal : Nat → Val → String
+  | 0, _ => "?"
+  | fuel+1, v =>
+    match v with
+    | .nil => "n"
+    | .bool true => "b1"
+    | .bool false => "b0"
+    | .int i => s!"i{i.toInt}"
+    | .uint u => s!"u{u.toNat}"
+    | .float f => s!"f{f.toBits.toNat}"
+    | .str s => "s" ++ (let h := Bytes.toHex s; if h == "" then "-" else h)
+    | .list _ xs => s!"l{xs.length}[" ++ ",".intercalate (xs.map (showVal fuel)) ++ "]"
+    | .arr _ xs => s!"a{xs.length}[" ++ ",".intercalate (xs.map (showVal fuel)) ++ "]"
+    | .boxed i sf => (if sf then "x1:" else "x0:") ++ showVal fuel i
+    | .ptr i => "p:" ++ showVal fuel i
+    | .nilptr => "P"
+    | .stringer i _ => "g:" ++ showVal fuel i
+    | .smap _ kvs => s!"m{kvs.length}"
+    | .imap _ kvs => s!"M{kvs.length}"
+    | .struct .. => "S"
+    | _ => "o"
+
+/-- `filter <name> <value…> ; <param…>`: one `ApplyFilter` call -/
+def runFilter (ts : List String) : String :=
+  match ts with
+  | nameh :: rest =>
+    match Bytes.ofHex nameh with
+    | none => "bad-request"
+    | some name =>
+      match decodeVal (rest.length + 1) rest with
+      | some (v, ";" :: prest) =>
+        match decodeVal (prest.length + 1) prest with
+        | some (p, []) =>
+          let (vi, vs) := match v with | .boxed i sf => (i, sf) | _ => (v, false)
+          let (pi, ps) := match p with | .boxed i sf => (i, sf) | _ => (p, false)
+          match applyFilter name ⟨vi, vs⟩ ⟨pi, ps⟩ with
+          | .ok r => s!"ok {if r.safe then 1 else 0} {showVal 16 r.v}"
+          | .err _ => "err"
+          | .unsupported => "unsupported"
+        | _ => "bad-request"
+      | _ => "bad-request"
+  | [] => "bad-request"
+
 def envOf : Val → Env
   | .smap _ kvs => kvs
   | _ => []
